@@ -510,6 +510,23 @@ def rule_index(ctx):
     ctx.require(n >= 8, 'C13.index', f'only {n} computed list indexes found')
 
 
+def rule_series(ctx):
+    ctx.rule('C13.once', 'Pseries and Pgeom end with their shortest parameter: in each turn of the loop the step (grow) stream is polled before '
+                         'the value is emitted, so a step pattern of n items gives n values (polled after the yield it gives n + 1, and the '
+                         'extra item is embedded in every enclosing pattern)')
+    for cfq in ('sc3.seq.patterns.valuepatterns:Pseries', 'sc3.seq.patterns.valuepatterns:Pgeom'):
+        f = ctx.repo.func(cfq + '.__embed__')
+        loops = [l for l in walk_local(f.node) if isinstance(l, (ast.For, ast.While))]
+        ctx.require(len(loops) == 1, 'C13.once', f'{cfq}.__embed__: loop not found')
+        body = loops[0].body
+        polls = [i for i, st in enumerate(body) if any(isinstance(c.func, ast.Attribute) and c.func.attr == 'next' for c in U.calls(st))]
+        yields = [i for i, st in enumerate(body) if any(isinstance(y, ast.Yield) for y in ast.walk(st))]
+        ok = bool(polls) and bool(yields) and max(polls) < min(yields)
+        ctx.ob('C13.once', f'{f.fq}:polls-before-it-yields', ok,
+               f'statement positions in the loop: parameter polled at {polls}, value yielded at {yields}: the poll must come first (it is what '
+               f'ends the sequence with the parameter)', loops[0], f.module)
+
+
 def rule_stays_ended(ctx):
     ctx.rule('C13.once', 'a pattern stream that has ended stays ended: the attribute whose None means "not started yet" is written in next() '
                          'only inside the start branch (reset() and __init__ are the other writers), so polling past the end raises again '
@@ -544,6 +561,7 @@ def run(ctx):
     c15.rule_order(ctx, rid='C13.ops', families=[f for f in c15.FAMILIES if f[0].startswith('sc3.seq.pattern')], least=5)
     rule_once(ctx)
     rule_stays_ended(ctx)
+    rule_series(ctx)
     rule_wf(ctx)
     rule_pure(ctx)
     rule_fresh(ctx)
@@ -554,6 +572,9 @@ def run(ctx):
 
 
 MUTANTS = [
+    dict(rule='C13.once', name='Pseries emits the value before it polls the step (seed C13-j)', file='sc3/seq/patterns/valuepatterns.py',
+         old="                stepval = step_stream.next(inval)\n                outval = cur\n                cur += stepval\n                inval = yield outval\n",
+         new="                inval = yield cur\n                cur += step_stream.next(inval)\n"),
     dict(rule='C13.once', name='an exhausted value stream drops its generator and restarts on the next poll (seed C13-i)', file='sc3/seq/eventstream.py',
          old="                return self._stream.send(inval)\n        except StopIteration:\n            raise stm.StopStream from None",
          new="                return self._stream.send(inval)\n        except StopIteration:\n            self._stream = None\n            raise stm.StopStream from None"),
